@@ -13,6 +13,16 @@ in the host's replies, the error text in the NetQASM log, the number of
 (virtual, simulated, registers, factory qubitList, receive queues) of ALL
 nodes before and after.
 
+The node names of a case are in the order of the configuration FILE (a random sample of the pool, in general not
+alphabetical); node ids are the positions in the SORTED list of names.
+
+Real start-up path (`StartedBench`, `started_cases`): config files with two or three networks over the same
+nodes ("default" fully connected and "lab" restricted, the other way round, a file without any "default" network,
+random ones); the QNodeOS of every node is started by the REAL `simulaqron.start.start_qnodeos.main(name,
+network_name, log_level)` on the fake reactor, its connect attempt is wired to the node's virtual node and the
+NetQASMFactory is taken from the reactor's listen table; then `factory.topology` (= the topology of ITS network in
+the file), `is_adjacent` and every (issuer, remote id) request are judged exactly as in the main stage.
+
 Oracle (independent of the Lean model): allowed iff the remote id is known,
 names another node, and the topology is None or lists that node for the
 issuer; after a refusal nothing changed anywhere.
@@ -38,6 +48,9 @@ TRUSTED = [
     "harness/simnet.py NqNet: real NetQASMFactory/SubroutineHandler/executioner on real virtual nodes over in-memory "
     "Perspective Broker; host messages recorded from netqasm's DebugConnection",
     "netqasm 2.3.0 (Executor, message (de)serialisation, SDK) executed, not modelled",
+    "real start-up stage: start_qnodeos.main runs in-process on twisted's MemoryReactorClock (reactor.run() returns at "
+    "once), `signal` and `SubroutineHandler` of start_qnodeos.py replaced from outside (no handlers installed; per-node "
+    "executioner classes), its one connect attempt wired by the harness to the node's virtual node",
 ]
 ASSUMPTIONS = [
     "node names are distinct strings (keys of the JSON object `nodes`); the topology is null or a JSON object of lists",
@@ -255,6 +268,92 @@ class Bench:
         return False
 
 
+class StartFailure(Exception):
+    pass
+
+
+class _SigStub:
+    """`signal` inside start_qnodeos.py: the real start-up path must not install handlers in the checking process"""
+    import signal as _s
+    SIGTERM, SIGINT = _s.SIGTERM, _s.SIGINT
+
+    @staticmethod
+    def signal(*a):
+        return None
+
+
+class StartedBench(Bench):
+    """Bench whose QNodeOS factories come from the REAL start-up path: for every node
+    `simulaqron.start.start_qnodeos.main(name, network_name, log_level)` runs on the fake reactor (reads the config
+    file, builds the NetQASMFactory, connects to the node's virtual node, and on success listens); the connect attempt
+    it issues is wired to the node's virtual node of the NqNet, and the factory is taken from the reactor's listen
+    table.  The config file holds several networks; `network_name` is the one the nodes are started in.
+
+    networks = {network name: {"nodes": [names in file order], "topology": ...}} in file order (the started one is
+    written first by simnet)."""
+
+    def __init__(self, names, network_name, networks, seed):
+        import sys
+        from .. import simnet as S
+        from netqasm.sdk.shared_memory import SharedMemoryManager
+        self.S = S
+        SharedMemoryManager.reset_memories()
+        self.names, self.topology = list(names), networks[network_name]["topology"]
+        self.network_name, self.networks = network_name, networks
+        extra = {k: v for k, v in networks.items() if k != network_name}
+        self.nq = nq = S.NqNet(self.names, topology=self.topology, max_qubits=6, rng=random.Random(seed),
+                               network_name=network_name, extra_networks=extra)
+        self.next_app = 0
+        _wrap_cmd_new(nq._EX)
+        import simulaqron.start          # noqa: F401  (the package rebinds the names to main(): take the module)
+        SQ = sys.modules["simulaqron.start.start_qnodeos"]
+        R = nq.clock
+        if SQ.reactor is not R:
+            raise core.MachineryError("start_qnodeos.py holds a real reactor")
+        SQ.signal = _SigStub
+        handler0 = SQ.SubroutineHandler
+        vport = {n: nq.nodes[n].myID.port for n in self.names}
+        self.direct = dict(nq.facs)
+        try:
+            for n in self.names:
+                # per-node handler/executioner classes (class-level counters are per process in a deployment)
+                SQ.SubroutineHandler = type(nq.facs[n].backend)
+                nserv, ncli = len(R.tcpServers), len(R.tcpClients)
+                try:
+                    SQ.main(n, network_name, "WARNING")
+                except Exception as e:
+                    raise StartFailure("start_qnodeos.main(%r, %r) raised %s: %s" % (n, network_name, type(e).__name__, e))
+                R.hasStopped = False           # MemoryReactor.run() returns at once and marks the reactor stopped
+                fresh = list(R.tcpClients[ncli:])
+                del R.tcpClients[ncli:]
+                del R.connectors[ncli:]
+                if len(fresh) != 1:
+                    raise StartFailure("start_qnodeos.main(%r, %r) issued %d connect attempts" % (n, network_name, len(fresh)))
+                _host, port, cfac = fresh[0][:3]
+                if port != vport[n]:
+                    raise StartFailure("QNodeOS of %s in network %r connects to port %s, its virtual node listens on %s" % (
+                        n, network_name, port, vport[n]))
+                tag = "qnos:%s" % n
+                nq._wire(n, cfac, "%s->%s" % (tag, n), "%s<-%s" % (tag, n), tag)
+                mine = nq._pipes[-2:]
+                while any(p.nreal for p in mine):
+                    for p in mine:
+                        if p.nreal:
+                            nq.deliver(p.cid)
+                served = R.tcpServers[nserv:]
+                if len(served) != 1 or getattr(served[0][1], "name", None) != n:
+                    raise StartFailure("QNodeOS of %s did not start listening after its virtual node accepted (%d servers)" % (
+                        n, len(served)))
+                qport = nq.qnodeos_net.hostDict[n].port
+                if served[0][0] != qport:
+                    raise StartFailure("QNodeOS of %s in network %r listens on port %s, configured %s" % (
+                        n, network_name, served[0][0], qport))
+                nq.facs[n] = served[0][1]
+        finally:
+            SQ.SubroutineHandler = handler0
+            del R.tcpServers[:]
+
+
 def _is_phi_plus(rows):
     """rows = generator matrix of a 2-qubit stabilizer state as bit strings `x1 x2 z1 z2 s` (Y = x and z set,
     Hermitian): the group is {II, XX, ZZ, -YY}"""
@@ -316,6 +415,45 @@ def random_topology(rng, names):
     if rng.random() < 0.2:
         topo[rng.choice(STRANGERS)] = [rng.choice(names)]   # a key that is no node
     return topo
+
+
+def started_cases(rng, nrandom):
+    """(names in file order, name of the network the nodes are started in, {network: {"nodes", "topology"}}):
+    config files with two or three networks over the same nodes whose topologies differ"""
+    abc = ["Alice", "Bob", "Charlie"]
+    lab = {"Alice": ["Bob"], "Bob": ["Alice", "Charlie"], "Charlie": ["Alice"]}       # directed: Alice -/-> Charlie
+    ring2 = {"Bob": ["Alice"], "Alice": ["Bob"]}
+    out = [
+        # nodes started in "lab" (restricted) while "default" is fully connected, and the other way round
+        (abc, "lab", {"lab": {"nodes": abc, "topology": lab}, "default": {"nodes": abc, "topology": None}}),
+        (abc, "lab", {"lab": {"nodes": abc, "topology": None}, "default": {"nodes": abc, "topology": lab}}),
+        # started in "default", another network in the file is restricted differently
+        (["Charlie", "Alice", "Bob"], "default",
+         {"default": {"nodes": ["Charlie", "Alice", "Bob"], "topology": lab}, "lab": {"nodes": abc, "topology": {}}}),
+        # no network called "default" in the file at all
+        (["Bob", "Alice"], "lab", {"lab": {"nodes": ["Bob", "Alice"], "topology": ring2},
+                                   "office": {"nodes": ["Alice", "Bob"], "topology": {"Alice": []}}}),
+    ]
+    for _ in range(nrandom):
+        n = rng.choice([2, 3, 3, 4])
+        names = pick_names(rng, n)
+        netnames = rng.sample(["default", "default", "lab", "net2", "Zeta"], rng.choice([2, 2, 3]))
+        netnames = list(dict.fromkeys(netnames))
+        if len(netnames) < 2:
+            netnames.append("lab2")
+        nets = {}
+        for k, nn in enumerate(netnames):
+            order = list(names)
+            if k:
+                rng.shuffle(order)
+            topo = random_topology(rng, names) if rng.random() < 0.8 else None
+            if k and topo == nets[netnames[0]]["topology"]:
+                topo = None if topo is not None else {names[0]: []}
+            nets[nn] = {"nodes": order, "topology": topo}
+        started = netnames[0]
+        # simnet writes the started network first; node order of the started network = names
+        out.append((names, started, nets))
+    return out
 
 
 def pick_names(rng, n):
@@ -394,7 +532,9 @@ def run(ctx):
                 "nodes incl. itself: 4 + 26 + 730) x every issuer x every remote id 0..n (n = unknown; thorough: one "
                 "more unknown id); random: topologies over 4-5 nodes (absent nodes, asymmetric lists, self-loops, "
                 "stranger names as keys and neighbours) x all ordered pairs + self + two unknown ids; one "
-                "real network per topology, one application per request; non-trivial = a topology is configured and "
+                "real network per topology, one application per request; plus config files with 2-3 networks of different "
+                "topologies whose nodes are started through the real start_qnodeos.main(name, network) (4 fixed + random); "
+                "node names in random (non-alphabetical) file order; non-trivial = a topology is configured and "
                 "the id is known; distinct by (names, topology, issuer, id)")
     lines, expect = [], []
 
@@ -405,12 +545,24 @@ def run(ctx):
     seen_followup_bad, seen_unclean = [], []
     stopped = [0]
 
-    def do_topology(names, topology, fresh_each=False):
+    def do_topology(names, topology, fresh_each=False, started=None):
+        """started = (network name, networks): the factories come from the real start-up path (StartedBench)"""
         seed = rng.randrange(2 ** 31)
-        bench = Bench(names, topology, seed)
+        extra = {"network": started[0], "networks": started[1]} if started else {}
+
+        def mk_bench(names, topology, seed):
+            return StartedBench(names, started[0], started[1], seed) if started else Bench(names, topology, seed)
+        try:
+            bench = mk_bench(names, topology, seed)
+        except StartFailure as e:
+            res.violation("start-path:qnodeos-not-up", "network %r of %s: %s" % (started[0], sorted(started[1]), e),
+                          {"names": names, "topology": topology, **extra})
+            res.case({"names": names, "topology": topology, **extra}, nontrivial=True)
+            return
         tok = topo_token(topology)
         n = len(names)
         ordered = sorted(names)
+        res.count("config-file-order:" + ("alphabetical" if list(names) == ordered else "not-alphabetical"))
         # -- unit level: is_adjacent and the node ids, straight from the factory
         from simulaqron.general.host_config import get_node_id_from_net_config
         by_id = sorted(names, key=lambda x: get_node_id_from_net_config(bench.nq.qnodeos_net, x))
@@ -420,14 +572,15 @@ def run(ctx):
         for me in names:
             fac = bench.nq.facs[me]
             if fac.topology != topology:
-                res.violation("topology-not-loaded", "factory.topology differs from the configured topology",
-                              {"names": names, "topology": topology, "loaded": fac.topology})
+                res.violation("topology-not-loaded", "factory.topology of %s differs from the topology configured for its "
+                              "network%s" % (me, " %r" % started[0] if started else ""),
+                              {"names": names, "topology": topology, "loaded": fac.topology, "me": me, **extra})
             for other in names + STRANGERS[:1]:
                 got = bool(fac.is_adjacent(other))
                 want = topology is None or other in topology.get(me, [])
                 if got != want:
                     res.violation("is_adjacent-wrong", "is_adjacent(%s) at %s = %s" % (other, me, got),
-                                  {"names": names, "topology": topology, "me": me, "other": other})
+                                  {"names": names, "topology": topology, "me": me, "other": other, **extra})
                 q("adj %s | %s | %s" % (tok, me, other), "true" if got else "false",
                   {"names": names, "topology": topology, "me": me, "other": other})
                 res.count("is_adjacent")
@@ -438,8 +591,8 @@ def run(ctx):
         for issuer in names:
             for rid in rids:
                 if fresh_each and bench.next_app > 0:
-                    bench = Bench(names, topology, seed)
-                case = {"names": names, "topology": topology, "issuer": issuer, "rid": rid}
+                    bench = mk_bench(names, topology, seed)
+                case = {"names": names, "topology": topology, "issuer": issuer, "rid": rid, **extra}
                 exp_allowed, exp_remote, cls = oracle_allowed(names, topology, issuer, rid)
                 obs = bench.request(issuer, rid)
                 judge(res, case, obs, exp_allowed, exp_remote, cls)
@@ -455,18 +608,30 @@ def run(ctx):
                     seen_followup_bad.append(case)
                 if not obs["clean_after_stop"]:
                     seen_unclean.append((case, obs["final"]))
-                    bench = Bench(names, topology, seed)      # do not let leftovers leak into the next request
+                    bench = mk_bench(names, topology, seed)      # do not let leftovers leak into the next request
         bench.nq.close()
 
     # ---- replay of a recorded failing input
     if ctx.replay and isinstance(ctx.replay.get("input"), dict) and "names" in ctx.replay["input"]:
         c = ctx.replay["input"]
-        bench = Bench(c["names"], c.get("topology"), 1)
+        try:
+            bench = StartedBench(c["names"], c["network"], c["networks"], 1) if c.get("networks") else \
+                Bench(c["names"], c.get("topology"), 1)
+        except StartFailure as e:
+            res.violation("start-path:qnodeos-not-up", str(e), c)
+            res.case(c)
+            return res
         if "issuer" in c:
             exp_allowed, exp_remote, cls = oracle_allowed(c["names"], c["topology"], c["issuer"], c["rid"])
             obs = bench.request(c["issuer"], c["rid"])
-            case = {k: c[k] for k in ("names", "topology", "issuer", "rid")}
+            case = {k: c[k] for k in ("names", "topology", "issuer", "rid", "network", "networks") if k in c}
             judge(res, case, obs, exp_allowed, exp_remote, cls)
+        elif "loaded" in c:
+            fac = bench.nq.facs[c["me"]]
+            if fac.topology != c["topology"]:
+                res.violation("topology-not-loaded", "factory.topology of %s differs from the topology configured for its "
+                              "network" % c["me"], dict(c, loaded=fac.topology))
+            case = c
         elif "me" in c:
             got = bool(bench.nq.facs[c["me"]].is_adjacent(c["other"]))
             if got != (c["topology"] is None or c["other"] in c["topology"].get(c["me"], [])):
@@ -500,6 +665,13 @@ def run(ctx):
         names = pick_names(rng, n)
         do_topology(names, random_topology(rng, names), fresh_each=ctx.thorough and rng.random() < 0.2)
         res.count("topologies-random")
+
+    # ---- the real start-up path: several networks in one file, the nodes started in one of them
+    for names, net_name, networks in started_cases(rng, ctx.scale(5, 60)):
+        do_topology(names, networks[net_name]["topology"], started=(net_name, networks))
+        res.count("started-through-start_qnodeos.main")
+        res.count("started-in:" + ("default" if net_name == "default" else "other-network")
+                  + ("" if "default" in networks else ":no-default-network-in-file"))
 
     if seen_followup_bad:
         res.notes.append("after %d request(s) the same application could not allocate a local qubit afterwards; first: %r"
